@@ -2,17 +2,24 @@
 
 Domain: generated programs (leaf kind int or qubit, concrete array lengths N in 2..4, M in 2..3)
 over the non-copyable types  A = array[leaf, N] . AA = array[A, M] . S{xs: A, k: int, ys: A} .
-U{s: S, zs: A} . TU = tuple[A, A] . P{t: TU, k: int} . W{xss: AA} . AS = array[S, M]  and, for
-qubits, L = qubit . Q2{a: qubit, b: qubit}.  A pool of functions in three levels takes 1-2 borrowed
-(no @owned) parameters plus `i, j, v: int`; bodies mutate the parameters in place through
-sub-places of any depth - element assignment, `+=`, element swaps, whole-field replacement,
-`x` / `cx` on qubits - in straight-line code, `for` / `while` loops, `if`/`else` and early
-`return`, lend parameters or sub-places of them to lower-level functions (nested borrows, 2-3
-levels, several borrowed arguments per call) and optionally return an int next to the borrowed
-values.  Case functions build local values with pairwise distinct contents, pass every place shape
-(variable, field `s.xs`, tuple element `t[0]`, array element `xss[i]` with literal or run-time
-index, nested `u.s.xs`, `p.t[0]`, `w.xss[i]`, `ss[i].xs`, `qs[j]`) and then report every leaf
-(`result` of the int arrays; qubits are measured).  12 cases share one emulated program.
+U{s: S, zs: A} . TU = tuple[A, A] . P{t: TU, k: int} . W{xss: AA, k: int} . AS = array[S, M] .
+G = array[AA, M] . AW = array[W, M]  and, for qubits, L = qubit . Q2{a: qubit, b: qubit}.  A pool
+of functions in three levels takes 1-2 borrowed (no @owned) parameters plus `i, j, v: int`; bodies
+mutate the parameters in place through sub-places of any depth - element assignment, `+=`, element
+swaps, whole-field replacement, `x` / `cx` on qubits, `mem_swap` of two places of one type or of a
+place with a fresh local value (the only way a classical field `k` of a borrowed struct changes) -
+in straight-line code, `for` / `while` loops, `if`/`else` and early `return`, lend parameters or
+sub-places of them to lower-level functions (nested borrows, 2-3 levels, several borrowed
+arguments per call) and optionally return an int (a constant expression or an element of a
+parameter) next to the borrowed values.  A lending call is a statement, the element expression of
+an array comprehension `array(f(v0.s, ...) for q_ in range(1..3))` (the places of the enclosing
+scope keep the updates of every iteration) or, `% n`, the index of a subscript of another call's
+argument place `f(g[h(c, ...) % 2][1], ...)` (evaluated once, so `c` is updated once and the
+element goes back where it came from).  Case functions build local values with pairwise distinct
+contents, pass every place shape (variable, field `s.xs`, tuple element `t[0]`, array element
+`xss[i]` with literal, run-time or call index, nested `u.s.xs`, `p.t[0]`, `w.xss[i]`, `ss[i].xs`,
+`g[i][j]`, `ws[i].xss[j]`, `qs[j]`) and then report every leaf (`result` of the int arrays and of
+the classical fields; qubits are measured).  12 cases share one emulated program.
 
 Oracle: pyref - CPython executes the same source text with lists / plain objects (reference
 semantics); qubits are objects holding one basis bit (`x` flips, `cx` xors).  The per-case result
@@ -198,7 +205,7 @@ class Gen:
                     cands.append((name, p))
         self.r.shuffle(cands)
         # prefer deeper paths a little
-        cands.sort(key=lambda c: -len(c[1]) if self.chance(50) else 0)
+        cands.sort(key=lambda c: -len(c[1]) if self.chance(60) else 0)
         for name, p in cands[:12]:
             for attempt in range(3):
                 steps = self.concretise(p, ctx, literal or attempt == 2)
@@ -482,6 +489,10 @@ class Gen:
             sw = self.stmt_swap_fresh(params, "fn", sorted(CLASSICAL_FIELD))
             if sw:
                 body.insert(self.r.randrange(len(body) + 1), sw)
+        elif self.leaf == "qubit" and np_ == 2 and params[0][1] == params[1][1] and params[0][1] in SWAP_TYPES and self.chance(60):
+            # (qubits cannot be dropped: two borrowed values are exchanged)
+            body.insert(self.r.randrange(len(body) + 1),
+                        {"lines": ["mem_swap(p0, p1)"], "kind": "memswap", "swapped": params[0][1], "depth": 0, "shapes": ["var", "var"]})
         if self.chance(20):
             early = self.stmt_write(params, "fn")
             if early:
@@ -592,10 +603,11 @@ class Gen:
 
     def case(self):
         wanted = {t for f in self.funcs for _, t in f["params"]}
-        pool = [t for t in self.types if any(all_paths(t, w, self.leaf) for w in wanted)]
+        # the three-level containers (places below two subscripts) are drawn twice as often
+        pool = [t for t in self.types + ["G", "AW"] if any(all_paths(t, w, self.leaf) for w in wanted)]
         locs = []
         budget = 12 if self.leaf == "qubit" else 10**6
-        for n in range(self.r.randrange(1, 4)):
+        for n in range(self.r.randrange(2, 5)):
             t = self.pick(pool)
             if self.n_leaves(t) <= budget:
                 budget -= self.n_leaves(t)
@@ -1107,18 +1119,25 @@ def worker(ctx):
 SPEC = harness.Spec(
     PROP, worker, replay,
     rule=("a random.Random drawn from Hypothesis builds one program: leaf kind int (65%) or qubit, N in 2..4, M in 2..3, structs "
-          "S{xs,k,ys} U{s,zs} P{t,k} W{xss} (Q2{a,b}), 5-10 functions in levels 0/1/2 with 1-2 borrowed parameters of the types "
-          "A AA S U TU P W AS (L Q2) + i, j, v: int, 2-5 statements each: element assignment / += / swap / field replacement "
-          "(x / cx for qubits) through sub-places of depth 0-4 with literal and run-time indices, for / while loops, if/else, early "
-          "return, optional int result, and calls that lend parameters or sub-places of them (pairwise non-overlapping, 1-2 per call) "
-          "to lower-level functions; 12 case functions per program, each with 1-3 locals of those types holding distinct values and 2-5 "
-          "calls passing variable / field / tuple element / array element / nested places, then reporting every leaf. One evaluation = "
+          "S{xs,k,ys} U{s,zs} P{t,k} W{xss,k} (Q2{a,b}), 5-10 functions in levels 0/1/2 with 1-2 borrowed parameters (the second of "
+          "the first one's type in half of the two-parameter functions) of the types A AA S U TU P W AS G=array[AA,M] AW=array[W,M] "
+          "(L Q2) + i, j, v: int, 2-5 statements each: element assignment / += / swap / field replacement (x / cx for qubits) / "
+          "mem_swap of two places of one type or of a place with a fresh local struct whose classical field depends on i, j, v "
+          "through sub-places of depth 0-4 with literal and run-time indices, for / while loops, if/else, early return, optional int "
+          "result (constant expression or an element of a parameter), and calls that lend parameters or sub-places of them (pairwise "
+          "non-overlapping, 1-2 per call) to lower-level functions; 40% of the call statements whose callee returns an int are the "
+          "element expression of an array comprehension over range(1..3), 65% of the argument places with a subscript get a call "
+          "`f(<other places>, ...) % n` as one index; 12 case functions per program, each with 2-4 locals of those types holding distinct values and 2-5 "
+          "calls passing variable / field / tuple element / array element / nested places, then reporting every leaf incl. the classical fields. One evaluation = "
           "one case function (its result stream against CPython's). non-trivial = some reachable callee statement writes through a "
           "place of depth >= 2 or the case reaches a chain of >= 2 nested borrowing calls; distinct = distinct single-case program text"),
     assumptions=[
         "CPython list / object reference semantics is the reference (pyref executes the same source text); ints stay far below 2^63",
         "qubits are only ever in computational basis states (x / cx from |0>), modelled as one bit per qubit object; measurement outcomes are then deterministic",
         "two borrowed arguments of one call (and the operands of cx) never overlap: places below the same array use different literal indices (overlapping borrows panic at run time by design and would alias in Python)",
+        "mem_swap(a, b) exchanges the values of the two places: the reference exchanges the contents of the two Python objects (list items / attributes / the basis bit); tuples are not swapped (immutable in Python)",
+        "the places lent inside an index call overlap no other argument of the enclosing call, and at most one subscript per argument place has a call index (two: evaluation order, C05 finding nested_subscript_order; excluded by construction, C07_EXCLUDE=none re-opens it)",
+        "the classical field of an array element is read through a borrowing helper `k_of(ss[0])` (`ss[0].k` is rejected: 'Subscript consumed')",
         "whole-element replacement `xss[i] = array(...)` on arrays of non-copyable elements is not generated (panics by design: the slot is not empty); whole-field replacement is",
         "array lengths are concrete (classical xs[i] in a length-generic function cannot run on the installed selene, DESIGN 1.4)",
         "programs are accepted by construction: a rejection is reported as harness error (exit 2); compiler crashes, invalid HUGR (hugr validate) and panics are violations",
